@@ -557,6 +557,8 @@ class PyEval:
             return dict(out)
         if isinstance(n, ast.SetComp):
             return set(out)
+        if isinstance(n, ast.GeneratorExp):
+            return iter(out)         # evaluated eagerly (the interpreted generators are pure), but consumed like a generator
         return out
 
     def attribute(self, o, name, mod, loc):
